@@ -9,18 +9,22 @@ PER_TIMEOUT = 10.0
 HARNESS_SRCS = ["harness/C04.cpp"]
 HP = 73
 NJ = 64
-ARITY = {":a": 5, ":f": 2, ":r": 6, ":clr": 1, ":rep": 1, ":dis": 0, ":en": 0, ":start": 0, ":stop": 0, ":inc": 0, ":dec": 0,
+ARITY = {":a": 5, ":f": 2, ":r": 6, ":af": 5, ":rf": 6, ":clr": 1, ":rep": 1, ":dis": 0, ":en": 0, ":start": 0, ":stop": 0, ":inc": 0, ":dec": 0,
          ":das": 0, ":mark": 0, ":q": 0}
 RULE = ("random allocation histories (1-400 ops, both bookkeeping layouts) aimed at the case splits of the proofs: bucket choice skewed to "
         "1-3 hot buckets (chains up to 60), release targets head / middle / tail of a chain, stale, never-allocated (in a populated "
         "bucket), NULL, address reuse, realloc in place / to another bucket / of a dead block, period transitions between any two ops, "
         "stages nested 0-3 plus the unsigned-char wrap (256 increments), clear of each period, stage release, demotion of checking "
-        "blocks, totals and reports (kept below the 4096-byte report buffer, which is C14's) at random points. "
+        "blocks, totals and reports at random points; allocations and reallocations (of live / dead / NULL blocks) that the underlying "
+        "allocator refuses (the block, or the separate bookkeeping record), followed by totals or the release of the block; "
+        "'straddle' histories whose reports sit on both sides of the report buffer limit (many small leaks, or few leaks with "
+        "file names of 12-140 characters, reported, thinned out and reported again), malloc / non-malloc mixes for the note. "
         "non-trivial = at least one allocation and one release/clear/stage op and one totals/report query")
 ASSUMPTIONS = ["addresses handed out by the underlying allocator are not in use (allocator contract)",
                "a block is released with the allocator kind it was obtained with (mismatch is C06)",
-               "the underlying allocator does not fail (C05/C15)", "allocation numbers stay below 2^32 (unsigned wrap not modelled)",
-               "reports stay below the 4096-byte buffer (C14); beyond it only subset + total are demanded"]
+               "which underlying allocator calls fail is scenario input (what a failed request returns and frees is C05)", "allocation numbers stay below 2^32 (unsigned wrap not modelled)",
+               "a report cut short by the 4096-byte buffer (C14) must carry the exact footer total, 'no leaks' answer and malloc note, "
+               "and list distinct outstanding blocks (at least one); where the cut falls is C14's"]
 
 
 def split_ops(s):
@@ -77,6 +81,10 @@ class Sim:
                 self.dead.append(a)
             self.store(h(o[2]), h(o[3]), h(o[4]), h(o[5]), h(o[6]))
             return ["F", 0, 0]
+        elif k == ":af":
+            return ["F", 0, 0]
+        elif k == ":rf":
+            return ["F", 0 if (o[1] == "~" or h(o[1]) in self.live) else 1, 0]
         elif k == ":dis":
             self.period = 1
         elif k in (":en", ":stop"):
@@ -106,14 +114,28 @@ class Sim:
         elif k == ":rep":
             p = h(o[1])
             es = sorted((r[1], a, r[0], r[2], r[3], r[4]) for a, r in self.live.items() if self.applies(p, r))
-            it = ["R", 1 if not es else 0, 0, len(es), len(es)]
+            it = ["R", 1 if not es else 0, 0, len(es), 1 if any(e[5] == 2 for e in es) else 0, len(es)]
             for (num, a, sz, f, l, kd) in es:
                 it += [a, sz, num, f, l, kd]
             return it
         return None
 
     def report_bytes(self, p):
-        return sum(130 + 82 * ((r[0] + 15) // 16) for r in self.live.values() if self.applies(p, r))
+        """estimated length of the entry part of report(p) (steers generation and labels only)"""
+        return sum(entry_bytes(r) for r in self.live.values() if self.applies(p, r))
+
+
+REPORT_LIMIT = 4096 - (24 + 10 + 69 + 273)      # startMemoryLeakReporting: buffer minus the reserved footers
+
+
+def name_len(f):
+    return len("f%x.c" % f) + (0 if f < 0x80 else 1 + 8 + 2 * (f & 0x3f))       # harness/C04.cpp: fileNames
+
+
+def entry_bytes(r):
+    sz, num, f, l, k = r[0], r[1], r[2], r[3], r[4]
+    head = 82 + len("%d" % num) + len("%d" % sz) + name_len(f) + len("%d" % l) + (3, 6, 6)[k] + 14
+    return head + sum(62 + min(16, sz - i) + (1 if 16 - min(16, sz - i) > 8 else 0) for i in range(0, sz, 16))
 
 
 def gen_one(rng, nops, maxlive, hot_n, big=False):
@@ -173,6 +195,30 @@ def gen_one(rng, nops, maxlive, hot_n, big=False):
         a = fresh()
         emit([":a", tz(a), tz(size()), tz(rng.randrange(3)), tz(rng.randrange(6)), tz(rng.choice([0, 1, 7, 0x7b, 0x3e8, 0xffff]))])
 
+    def failing_op():
+        """a request the underlying allocator refuses; then often a look at the totals or the release of the very block"""
+        w = tz(rng.choice([1, 2]))
+        r = rng.random()
+        if r < 0.2:
+            emit([":af", tz(size()), tz(rng.randrange(3)), tz(rng.randrange(6)), tz(rng.randrange(0x100)), w])
+        elif r < 0.8 and sim.live:
+            a = pick_live()
+            kd = sim.live[a][4]
+            emit([":rf", tz(a), tz(size()), tz(kd), tz(rng.randrange(6)), tz(rng.randrange(0x100)), w])
+            r2 = rng.random()
+            if r2 < 0.3:
+                emit([":f", tz(a), tz(kd)])
+            elif r2 < 0.45:
+                emit([":r", tz(a), tz(a if rng.random() < 0.5 else fresh()), tz(size()), tz(kd), "0", "2"])
+        elif r < 0.88:
+            emit([":rf", "~", tz(size()), tz(rng.randrange(3)), tz(rng.randrange(6)), tz(rng.randrange(0x100)), w])
+        else:
+            a = rng.choice(sim.dead[-20:]) if sim.dead and rng.random() < 0.6 else bucket() + HP * rng.randrange(NJ)
+            kd = sim.live[a][4] if a in sim.live else rng.randrange(3)
+            emit([":rf", tz(a), tz(size()), tz(kd), "0", "1", w])
+        if rng.random() < 0.5:
+            emit([":q"])
+
     if rng.random() < 0.8:     # a fresh detector is disabled: most histories switch accounting on first
         emit([rng.choice([":en", ":start", ":start"])])
     for _ in range(nops):
@@ -199,7 +245,9 @@ def gen_one(rng, nops, maxlive, hot_n, big=False):
                     emit([":f", tz(a), tz(rng.randrange(3))])
             else:
                 emit([":f", "~", tz(rng.randrange(3))])
-        elif c < 0.80:
+        elif c < 0.815 and c >= 0.78:
+            failing_op()
+        elif c < 0.78:
             r = rng.random()
             if r < 0.7 and sim.live:
                 a = pick_live()
@@ -218,9 +266,9 @@ def gen_one(rng, nops, maxlive, hot_n, big=False):
                     emit([":r", tz(a), tz(a), tz(size()), tz(kd), "0", "1"])
                 else:
                     emit([":r", tz(a), tz(fresh()), tz(size()), tz(rng.randrange(3)), "0", "1"])   # dead block: reported, nothing stored
-        elif c < 0.87:
+        elif c < 0.875:
             emit([rng.choice([":dis", ":en", ":start", ":stop", ":start", ":stop", ":mark"])])
-        elif c < 0.91:
+        elif c < 0.912:
             r = rng.random()
             if r < 0.4 and depth < 3:
                 emit([":inc"]); depth += 1
@@ -237,11 +285,7 @@ def gen_one(rng, nops, maxlive, hot_n, big=False):
         elif c < 0.97:
             emit([":q"])
         else:
-            p = rng.randrange(4)
-            if sim.report_bytes(p) < 3000:
-                emit([":rep", str(p)])
-            else:
-                emit([":q"])
+            emit([":rep", str(rng.randrange(4))])
     if big:   # unsigned char wrap of the stage: 256 increments come back to the same stage
         n0 = len(ops)
         for _ in range(256):
@@ -249,8 +293,79 @@ def gen_one(rng, nops, maxlive, hot_n, big=False):
         emit([":das"])
     emit([":q"])
     for p in rng.sample(range(4), 2):
-        if sim.report_bytes(p) < 3000:
-            emit([":rep", str(p)])
+        emit([":rep", str(p)])
+    return join_ops(layout, ops)
+
+
+def gen_straddle(rng):
+    """reports on both sides of the report buffer limit: leaks are piled up until the estimated report is 0.6-1.6 times the limit,
+    reported for every period, thinned out (frees, a clear, a stage release), and reported again"""
+    sim = Sim()
+    layout = str(rng.randrange(2))
+    ops = []
+
+    def emit(o):
+        ops.append(o)
+        sim.step(o)
+
+    hot = [rng.randrange(HP) for _ in range(rng.choice([1, 2, 3, 6]))]
+    mode = rng.choice(["small", "small", "long", "mixed", "zero"])
+    kinds = rng.choice([[0], [0, 1], [0, 1, 2], [2], [0, 0, 0, 0, 0, 0, 2]])     # with / without malloc blocks: the note
+
+    def fresh():
+        while True:
+            a = (rng.choice(hot) if rng.random() < 0.8 else rng.randrange(HP)) + HP * rng.randrange(NJ)
+            if a not in sim.live:
+                return a
+
+    def one_alloc():
+        if mode == "small":
+            sz, f = rng.randrange(0, 9), rng.randrange(6)
+        elif mode == "zero":
+            sz, f = 0, rng.randrange(3)
+        elif mode == "long":
+            sz, f = rng.choice([0, 0, 1, 4]), rng.randrange(0x80, 0x100)
+        else:
+            sz, f = rng.choice([0, 1, 8, 0x10, 0x11, 0x30, 0x60]), rng.choice([0, 1, 0x80, 0xbf, 0xff])
+        a = fresh()
+        if sim.live and rng.random() < 0.08:
+            old = rng.choice(list(sim.live))
+            emit([":r", tz(old), tz(a), tz(sz), tz(sim.live[old][4]), tz(f), tz(rng.randrange(0x100))])
+        else:
+            emit([":a", tz(a), tz(sz), tz(rng.choice(kinds)), tz(f), tz(rng.choice([0, 7, 0x3e8, 0xffff]))])
+
+    emit([rng.choice([":en", ":start", ":start", ":dis"])])
+    target = REPORT_LIMIT * rng.uniform(0.6, 1.6)
+    while sim.report_bytes(0) < target and len(sim.live) < 140:
+        one_alloc()
+        c = rng.random()
+        if c < 0.04:
+            emit([rng.choice([":en", ":start", ":stop", ":dis", ":inc"])])
+        elif c < 0.08 and sim.live:
+            a = rng.choice(list(sim.live))
+            emit([":rf", tz(a), "4", tz(sim.live[a][4]), "0", "1", tz(rng.choice([1, 2]))])
+        elif c < 0.11 and sim.live:
+            a = rng.choice(list(sim.live))
+            emit([":f", tz(a), tz(sim.live[a][4])])
+    emit([":q"])
+    for p in rng.sample(range(4), rng.choice([2, 4])):
+        emit([":rep", str(p)])
+    # thin out and look again
+    c = rng.random()
+    if c < 0.6:
+        for a in rng.sample(list(sim.live), min(len(sim.live), rng.randrange(1, 8))):
+            emit([":f", tz(a), tz(sim.live[a][4])])
+    elif c < 0.8:
+        emit([":clr", str(rng.randrange(1, 4))])
+    else:
+        emit([":das"])
+    emit([":q"])
+    for p in rng.sample(range(4), 2):
+        emit([":rep", str(p)])
+    if rng.random() < 0.3:
+        for _ in range(rng.randrange(1, 6)):
+            one_alloc()
+        emit([":rep", "0"])
     return join_ops(layout, ops)
 
 
@@ -259,7 +374,9 @@ def generate(tier, rng):
     n = 2500 if tier == "quick" else 60000
     for i in range(n):
         c = rng.random()
-        if c < 0.35:
+        if c < 0.14:
+            s = gen_straddle(rng)
+        elif c < 0.35:
             s = gen_one(rng, rng.randrange(1, 40), 12, rng.choice([1, 1, 2, 3]))
         elif c < 0.8:
             s = gen_one(rng, rng.randrange(40, 160), rng.choice([10, 40, 70]), rng.choice([1, 2, 3]))
@@ -274,7 +391,7 @@ def generate(tier, rng):
 def nontrivial(s):
     _, ops = split_ops(s)
     ks = set(o[0] for o in ops)
-    return ":a" in ks and bool(ks & {":f", ":r", ":clr", ":das", ":mark"}) and bool(ks & {":q", ":rep"})
+    return ":a" in ks and bool(ks & {":f", ":r", ":rf", ":clr", ":das", ":mark"}) and bool(ks & {":q", ":rep"})
 
 
 def classify(s):
@@ -285,8 +402,22 @@ def classify(s):
     sim = Sim()
     maxchain = 0
     stale = 0
+    over = under = mnote = 0
+    flive = fother = 0
     for o in ops:
+        if o[0] == ":rep":
+            b = sim.report_bytes(int(o[1], 16))
+            if b > REPORT_LIMIT:
+                over += 1
+            elif b > 0:
+                under += 1
+        if o[0] == ":rf" and o[1] != "~" and int(o[1], 16) in sim.live:
+            flive += 1
+        elif o[0] in (":af", ":rf"):
+            fother += 1
         it = sim.step(o)
+        if it and it[0] == "R" and it[4] == 1:
+            mnote += 1
         if it and it[0] == "F" and it[1] == 1:
             stale += 1
         if o[0] in (":a", ":r") and sim.live:
@@ -297,6 +428,16 @@ def classify(s):
     lab.append("chain<=3" if maxchain <= 3 else "chain<=15" if maxchain <= 15 else "chain>15")
     if stale:
         lab.append("non-allocated release")
+    if over:
+        lab.append("report beyond the buffer limit (est.)")
+    if over and under:
+        lab.append("reports on both sides of the buffer limit (est.)")
+    if mnote:
+        lab.append("report with malloc note")
+    if flive:
+        lab.append("refused realloc of a live block")
+    if fother:
+        lab.append("refused alloc / realloc of NULL or dead block")
     for k, name in ((":r", "realloc"), (":das", "stage release"), (":clr", "clear"), (":mark", "demote"), (":rep", "report")):
         if k in ks:
             lab.append(name)
@@ -313,13 +454,36 @@ def items_of(obs):
             elif t[i] == "T":
                 its.append(t[i:i + 5]); i += 5
             elif t[i] == "R":
-                k = int(t[i + 4], 16)
-                its.append(t[i:i + 5 + 6 * k]); i += 5 + 6 * k
+                k = int(t[i + 5], 16)
+                its.append(t[i:i + 6 + 6 * k]); i += 6 + 6 * k
             else:
                 its.append(t[i:i + 1]); i += 1
     except Exception:
         pass
     return its
+
+
+def item_agrees(exp, got):
+    """python rendering of check_item (only used to name the first bad item of a failure; the judge is the extracted spec)"""
+    if got is None or got[0] != exp[0]:
+        return False
+    if exp[0] != "R" or len(got) < 6 or got[2] != "1":
+        return got == exp
+    # report cut short: no-leaks, total and note exact, entries distinct outstanding ones, at least one
+    if got[1] != exp[1] or got[3] != exp[3] or got[4] != exp[4]:
+        return False
+    ge = [tuple(got[i:i + 6]) for i in range(6, len(got), 6)]
+    ee = set(tuple(exp[i:i + 6]) for i in range(6, len(exp), 6))
+    return len(ge) > 0 and len(set(ge)) == len(ge) and all(x in ee for x in ge)
+
+
+def project(obs, flavour):
+    """model and implementation are compared on everything but the entry lists and the truncation flag of reports: where the report
+    buffer (C14) cuts a long report is not modelled; the entries are judged by spec (set equality / subset) on the implementation"""
+    out = []
+    for it in items_of(obs):
+        out += it[:2] + it[3:5] if it[0] == "R" else it
+    return " ".join(out)
 
 
 def signature(s, obs):
@@ -337,7 +501,7 @@ def signature(s, obs):
         got = its[j] if j < len(its) else None
         j += 1
         exp = [e[0]] + [tz(x) for x in e[1:]]
-        if got != exp:
+        if not item_agrees(exp, got):
             return "layout %s: first bad item %s after %s" % (layout, e[0], o[0])
     return "layout %s: no single bad item" % layout
 
@@ -350,6 +514,8 @@ def scenario_valid(layout, ops):
         if o[0] == ":a" and h(o[1]) in sim.live:
             return False
         if o[0] == ":f" and o[1] != "~" and h(o[1]) in sim.live and sim.live[h(o[1])][4] != h(o[2]):
+            return False
+        if o[0] == ":rf" and o[1] != "~" and h(o[1]) in sim.live and sim.live[h(o[1])][4] != h(o[3]):
             return False
         if o[0] == ":r":
             if o[1] == "~":
@@ -380,17 +546,23 @@ def shrink_candidates(s):
                 yield join_ops(layout, c)
         step //= 2
     yield join_ops("1" if layout == "0" else "0", ops)
+    # shorter file names / smaller blocks (keeps a truncated report truncated only if it has to be)
+    for i, o in enumerate(ops):
+        if o[0] == ":a" and (int(o[4], 16) >= 0x80 or int(o[2], 16) > 8):
+            yield join_ops(layout, ops[:i] + [[o[0], o[1], tz(min(int(o[2], 16), 8)), o[3], tz(int(o[4], 16) & 3), o[5]]] + ops[i + 1:])
 
 
 LEVEL_TEXT = ("Machine-checked (Coq) refinement of an executable model of the 73-bucket allocation table (head insertion, the prev/cur unlink and "
               "clear walks, cross-bucket getFirst/getNext iteration, stage release with the successor fetched before the release, demotion of "
               "checking blocks, period/stage stamping with the unsigned-char wrap) to a duplicate-free association list address -> record: "
               "invariants and refinement for every operation history by induction, exact removal, exact clear/stage release, complete and "
-              "duplicate-free iteration, and spec(run) = true. Tied to the code by a differential run of the extracted model against a private "
+              "duplicate-free iteration, requests refused by the underlying allocator change nothing (a failed realloc puts the record back), "
+              "report item (no-leaks answer, footer total, malloc note, entries) = outstanding set, and spec(run) = true. Tied to the code by a differential run of the extracted model against a private "
               "MemoryLeakDetector driven through an arena allocator that picks hash buckets, both bookkeeping layouts.")
 LEVEL_NOTE = ("Trusted: Coq kernel, extraction, harness (report text parser, arena allocator), generator. Modelled not verified: the C++ itself. "
               "The bucket count is regenerated from the source on every run. Allocation numbers are unbounded in the model (unsigned in the code); "
-              "reports longer than the 4096-byte buffer are only required to be a subset with the right total (the buffer is C14); allocator "
+              "reports cut short by the 4096-byte buffer must carry the exact total / no-leaks answer / malloc note and list distinct outstanding "
+              "blocks (where the cut falls is C14); which allocator calls fail is scenario input, what a refused request returns or frees is C05; allocator "
               "kind mismatch and guard bytes are C06/C05; the global new/delete/malloc routing is exercised by C07/C10 harnesses, not here.")
 TECHNIQUE = "Coq proof (refinement + invariants by induction over operation histories) over hand-written executable model + extracted-model/implementation differential check"
 READY = True
